@@ -480,6 +480,10 @@ func stopFailure(st *rig.Stop) *Failure {
 	case "panic":
 		return failf("panic", "panic:"+panicSite(st.Ev.Stack)+":"+panicClass(st.Ev.Value), "panic: %s\n%s", st.Ev.Value, trimStack(st.Ev.Stack))
 	case "died":
+		if cls := fatalClass(st.Detail); cls == "race" {
+			return failf("race", "race:"+raceSites(st.Detail), "the race detector stopped the child: %s", head(st.Detail[strings.Index(st.Detail, "WARNING: DATA RACE"):], 3500))
+		}
+
 		return failf("fatal", "fatal:"+fatalClass(st.Detail), "child died: %s", head(st.Detail, 1500))
 	case "hang":
 		if strings.HasPrefix(st.Detail, "slow:") {
@@ -587,6 +591,88 @@ func fatalClass(out string) string {
 	}
 
 	return "other"
+}
+
+// raceSites names a race report. A race one side of which runs in one of the
+// library's asynchronous parties (the resize goroutine started by
+// display.WatchResize, an application goroutine inside Shell.Printf /
+// PrintTransientf) is named after that party: these call Refresh with no
+// synchronisation with the main loop, which is one root cause whatever two
+// statements the detector happens to pair. Any other race is named after the
+// first library function of each of its two stacks.
+func raceSites(out string) string {
+	i := strings.Index(out, "WARNING: DATA RACE")
+	if i < 0 {
+		return "?"
+	}
+
+	report := out[i:]
+	if j := strings.Index(report, "Goroutine "); j > 0 {
+		report = report[:j] // the two access stacks, not the creation stacks
+	}
+
+	switch {
+	case strings.Contains(report, "display.WatchResize.func1"):
+		return "resize-goroutine"
+	case strings.Contains(report, "readline.(*Shell).Printf") || strings.Contains(report, "readline.(*Shell).PrintTransientf"):
+		return "printf-goroutine"
+	}
+
+	sites := []string{}
+	want := false
+
+	for _, l := range strings.Split(report, "\n") {
+		t := strings.TrimSpace(l)
+
+		switch {
+		case strings.Contains(t, " at 0x") && strings.Contains(t, " by "):
+			if want {
+				sites = append(sites, "?")
+			}
+
+			want = true
+		case want && strings.HasPrefix(t, "github.com/reeflective/readline"):
+			site := strings.TrimPrefix(t, "github.com/reeflective/readline")
+			if j := strings.LastIndex(site, "("); j > 0 {
+				site = site[:j]
+			}
+
+			sites = append(sites, site)
+			want = false
+		}
+
+		if len(sites) == 2 {
+			break
+		}
+	}
+
+	sort.Strings(sites)
+
+	return strings.Join(sites, "|")
+}
+
+// raceFailure turns the race detector's log into a failure: the first report
+// that is not a recorded finding, else the first recorded one.
+func raceFailure(prop, log, ctx string) *Failure {
+	var known *Failure
+
+	for _, rep := range strings.Split(log, "==================") {
+		if !strings.Contains(rep, "WARNING: DATA RACE") {
+			continue
+		}
+
+		f := failf("race", "race:"+raceSites(rep), "%s: the race detector reports: %s", ctx, head(strings.TrimSpace(rep), 3500))
+
+		if knownFinding(prop, f) == nil {
+			return f
+		}
+
+		if known == nil {
+			known = f
+		}
+	}
+
+	return known
 }
 
 func hangSite(dump string) string {
